@@ -146,3 +146,59 @@ pub struct UnknownSerdeIsInert;
 /// enum Either<L = String, R = L> { Left(L), Right(R) }
 /// ```
 pub struct DefaultedGenericsExpand;
+
+/// Items whose members are all skipped still expand to an impl that compiles (no `[].join(..)`).
+/// ```no_run
+/// #![allow(dead_code)]
+/// #[derive(ts_rs::TS)]
+/// struct T(#[ts(skip)] i32, #[ts(skip)] String);
+/// #[derive(ts_rs::TS)]
+/// enum V { A(#[ts(skip)] i32, #[ts(skip)] i32), B }
+/// #[derive(ts_rs::TS)]
+/// enum W { #[ts(skip)] A, #[ts(skip)] B }
+/// #[derive(ts_rs::TS)]
+/// struct S { #[ts(skip)] a: i32 }
+/// #[derive(ts_rs::TS)]
+/// struct N(#[ts(skip)] i32);
+/// ```
+pub struct AllSkippedExpands;
+
+/// Every type parameter the generated impl mentions gets its bound: parameters no field uses, parameters behind
+/// `#[ts(optional)]` / `optional_fields` projections, parameters inside a `$t:ty` macro fragment.
+/// ```no_run
+/// #![allow(dead_code)]
+/// use std::marker::PhantomData;
+/// #[derive(ts_rs::TS)]
+/// struct H<T> { id: u32, #[ts(skip)] m: PhantomData<T> }
+/// #[derive(ts_rs::TS)]
+/// struct G<T> { #[ts(optional)] x: Option<T> }
+/// #[derive(ts_rs::TS)]
+/// #[ts(optional_fields)]
+/// struct O<T> { t: T, u: Option<T> }
+/// macro_rules! mk { ($name:ident, $t:ty) => { #[derive(ts_rs::TS)] struct $name<T> { x: $t } }; }
+/// mk!(Grouped, Vec<T>);
+/// ```
+pub struct EveryMentionedParameterIsBounded;
+
+/// Raw identifiers as type parameters, and a parameter that is inlined, expand and compile.
+/// ```no_run
+/// #![allow(dead_code, non_camel_case_types)]
+/// #[derive(ts_rs::TS)]
+/// struct Raw<r#type> { a: r#type }
+/// #[derive(ts_rs::TS)]
+/// struct GI<T> { #[ts(inline)] v: Vec<T>, #[ts(inline)] w: (T, i32) }
+/// #[derive(ts_rs::TS)]
+/// #[ts(concrete(A = i32), concrete(B = u8))]
+/// struct Two<A, B> { a: A, b: B }
+/// ```
+pub struct UnusualGenericsExpand;
+
+/// serde accepts a trailing comma and an empty list; neither may break the derive.
+/// ```no_run
+/// #![allow(dead_code)]
+/// #[derive(ts_rs::TS, serde::Serialize)]
+/// #[serde(rename_all = "camelCase",)]
+/// #[serde()]
+/// struct W { #[serde(rename = "x",)] a_b: i32 }
+/// ```
+pub struct SerdeListFormsAccepted;
